@@ -1,5 +1,6 @@
 """Per-property claim texts used to generate MANIFEST.json (tools/mkmanifest.py)."""
 TECH = 'contract-based deductive verification: VCs generated from the real function ASTs, discharged by z3/cvc5'
+M2T = 'contract-based deductive verification in guard-dominance mode: the real coroutine bodies executed symbolically (opaque callees, state merging, frame scan), site obligations discharged by z3 (EUF+LIA)'
 CLAIMS = {
  'C12': {
   'text': 'ct_check_cbc_mac_and_pad is proved equal to the plain specification of the property (correct MAC of the remaining data followed by a version-allowed padding) for every body length < 2^16, every pad byte, digest/block size, sequence number, content type and all four versions; the eight ct_* helpers are proved against their arithmetic meaning in bit-vector arithmetic; loops are cut by inductive invariants, nothing is bounded.',
@@ -41,6 +42,51 @@ CLAIMS = {
   'design_ref': 'DESIGN.md section 3 C19',
   'note': 'points-to analysis is a custom checker (pyvc/framecheck.py), not SMT; liveness part of the property not claimed',
   'technique': TECH + '; AST frame/alias analysis task for the receiver-immutability obligations'},
+ 'C04': {
+  'text': 'Client side of the handshake (real code, guard-dominance mode): every ClientHello carries TLS_FALLBACK_SCSV when a fallback is signalled (all create() sites); the downgrade-sentinel check dominates every _handshakeDone; _getFinished compares verify_data with calc_key over the transcript snapshot taken before the Finished is hashed, after exactly one ChangeCipherSpec and one read-state switch; _sendFinished orders CCS, write-state change, Finished; HRR transcript restart and session-id echo. Partial: server-side sentinel/SCSV, PSK binder truncation, TLS 1.3 key-schedule points and transcript completeness in _getMsg/_queue_message are not yet registered here (see evidence not_built).',
+  'design_ref': 'DESIGN.md section 3 C04',
+  'note': 'no man-in-the-middle is executed; unequal transcripts => Finished mismatch is the hash/PRF assumption; M2 abstraction (opaque callees, purity assumptions listed in evidence)',
+  'technique': M2T},
+ 'C06': {
+  'text': 'Client side: the accepted server flight in <=TLS1.2 is proved to be a word of the RFC 5246 fig. 1 automaton for every negotiable suite (typestate ghost advanced at every _getMsg site of _clientKeyExchange/_handshakeClientAsyncHelper); CertificateRequest only for certificate-authenticated non-SRP suites; CCS-then-Finished with the read-state switch in between; second HelloRetryRequest and a NewSessionTicket sent to a server are rejected. Partial: the _getMsg gate itself, the server flows, TLS 1.3 client flight typestate and renegotiation refusal are not yet registered (not_built).',
+  'design_ref': 'DESIGN.md section 3 C06',
+  'note': 'the protocol automaton is hand-written from the RFC figures (spec TCB); _getMsg is used through its gate contract (assumed here)',
+  'technique': M2T + '; typestate ghost variable'},
+ 'C13': {
+  'text': 'Client side: a cached session is offered only if valid(); expired tickets are pruned before being offered; the abbreviated path of _clientResume is entered only when the ServerHello echoes the offered session id, and the resumed session copies suite and master secret; TLS 1.3: the server-selected PSK must be one that was offered (index in range) and the key-exchange mode must have been offered. Partial: server acceptance conditions, ticket payload round trip and cache are under C18/not_built. Known finding F4 (declined ticket aborts instead of falling back) is printed as KNOWN-FINDING.',
+  'design_ref': 'DESIGN.md section 3 C13',
+  'note': 'multi-connection histories are not executed; M2 abstraction',
+  'technique': M2T},
+ 'C09': {
+  'text': 'Key derivation: P_hash, PRF (TLS 1.0/1.1 MD5/SHA-1 halves incl. odd secret lengths), PRF_1_2, PRF_1_2_SHA384, PRF_SSL, HKDF_expand (whole RFC 5869 domain after fix 98e7690), HKDF_expand_label, derive_secret, calc_key (symbolic version/suite/label/length; seed orders), calcMasterSecret/ExtendedMasterSecret/Finished, the SSLv3 MAC and handshake digest, and the fallback HMAC class are proved equal to the RFC formulas for every key, seed, label and output length, with the hash/HMAC primitives uninterpreted; key-block slicing per role (calcPendingStates). Partial: cipher constructions (CBC/CTR/GCM/CCM/ChaCha20-Poly1305) are being built separately; AES/3DES/RC4 cores are out of deductive reach (bounded differential runs only).',
+  'design_ref': 'DESIGN.md section 3 C09',
+  'note': 'hashlib/hmac trusted and uninterpreted; definitional axioms for the RFC streams checked for consistency at import',
+  'technique': TECH + '; loop invariants over RFC stream definitions'},
+ 'C15': {
+  'text': 'Every Writer and Parser primitive of utils/codec.py is proved against its specification (exact big-endian append, ValueError iff the value does not fit, never truncating; index monotone and in range, exact bytes returned, DecodeError exactly on truncated / non-multiple / length-check failures, loop variants), the five write/read pair lemmas and three framing lemmas hold for arbitrary buffers, and parse/write contracts plus round-trip lemmas (fields back, everything consumed, rewrite byte-identical) are proved for RecordHeader3, Alert, ChangeCipherSpec, HelloRequest, ServerHelloDone, KeyUpdate, Finished, CertificateVerify, NextProtocol, Heartbeat, ApplicationData. Partial: messages carrying extension blocks, extensions.py, X.509-bearing messages and SSLv2 forms are not built.',
+  'design_ref': 'DESIGN.md section 3 C15',
+  'note': 'tuple lists proved for arity 2 (the only arity used); Parser preconditions (non-negative lengths, element size >= 1) from call sites',
+  'technique': TECH + '; scenario lemmas for round trips'},
+ 'C08': {
+  'text': 'Exception safety and termination of the codec layer: for arbitrary input bytes every Parser primitive and every parse() of the simple message classes can leave only by DecodeError/SyntaxError-family exceptions (no IndexError, KeyError, AssertionError, TypeError, ValueError), with loop variants; _sendError is proved never to return normally and to send one fatal alert, shut down non-resumably and raise TLSLocalAlert. Partial: extension and certificate parsers, handshake-body dereferences, exception-to-alert mapping in _getMsg and resource bounds are not built (several defects of this kind were found and fixed on the client side, see known_findings.json).',
+  'design_ref': 'DESIGN.md section 3 C08',
+  'note': 'memory bound not addressed; only the listed functions are covered',
+  'technique': TECH},
+ 'C14': {
+  'text': 'Yield transparency: every one of the 318 loops over a generator call in tlsrecordlayer.py, recordlayer.py, messagesocket.py and tlsconnection.py is proved (one named obligation per loop) to be one of the enumerated pass-through idioms with the test `in (0, 1)`, which is what makes would-block indications from callees transparent; Defragmenter: add_data(a); add_data(b) == add_data(a||b), get_message functional specification (priority, exact removal, progress) and an explicit record-split-invariance lemma, is_empty <=> all buffers empty; _getNextRecord defragmentation loop. Partial: RecordSocket/BufferedSocket ghost-stream contracts and AsyncStateMachine are being built (not_built until registered).',
+  'design_ref': 'DESIGN.md section 3 C14',
+  'note': 'equivalence of outcomes under all schedules follows modularly from these contracts; no schedule is executed',
+  'technique': TECH + '; AST idiom task; scenario lemmas on the real Defragmenter'},
+ 'C16': {
+  'text': 'Post-handshake control traffic on the real code: readAsync (admitted content/handshake types per state, _readBuffer grows only by ApplicationData payloads, prefix/suffix split at the same cut, every control branch leaves the buffer unchanged), KeyUpdate (unknown type => illegal_parameter, the read/write state replaced with the right direction secret for the role, stored secrets updated, requested update answered), post-handshake authentication (context popped = single use, scheme in the request list, signature over first transcript||CertificateRequest||Certificate, Finished equal, only then clientCertChain stored), heartbeat (answered only if permitted and padding >= 16, response created from the request), _sendMsg fragmentation (concatenation of fragments == message, 1/n-1 split without repeating byte 0, fragment limit).',
+  'design_ref': 'DESIGN.md section 3 C16',
+  'note': 'interleaving histories by modularity only; the two-endpoint relational KeyUpdate lemma is not built; M2 fault and purity assumptions are listed in the evidence',
+  'technique': M2T + '; M1 contract with loop invariant for _sendMsg'},
+ 'C17': {
+  'text': 'Exceptional postconditions on the real I/O wrappers with a fault injected at every socket-touching callee: readAsync (close_notify ends the read normally, abrupt close raises unless ignoreAbruptClose, every other exception leaves after _shutdown(False)), writeAsync (TLSClosedConnectionError before any send when closed), close/_decrefAsync, _shutdown (closed set, resumable only ever cleared), _handshakeWrapperAsync (any exception => _shutdown(False) before re-raise; _handshakeDone is the only writer of closed=False), _sendMsgThroughSocket, the _getMsg alert branch, and a whole-repository task that every raise of TLSLocalAlert/TLSRemoteAlert sits in a function with a shutdown proof.',
+  'design_ref': 'DESIGN.md section 3 C17',
+  'note': 'which I/O call faults is abstracted (any callee may raise socket.error/TLSAbruptCloseError): that is the all-fault-points quantifier; known finding F24 (heartbeat response send failure deliberately swallowed) is carved out',
+  'technique': M2T + '; AST writer/raise-site tasks'},
 }
 NOT_APPLICABLE = {
  'C07': 'interoperability with OpenSSL: no contract on /repo functions can speak about another implementation\'s behaviour; needs a second implementation executing (see DESIGN.md C07)',
